@@ -25,6 +25,7 @@ CONDITIONS = (
     + shards("absolute", "c14.py", "h_absolute", {"kind": [0, 1], "sk": [0, 1, 2, 3], "rep": [2]}, timeout=300,
              what="absolute UTC trigger and its repeats regardless of the component's times",
              bound="trigger any second of 1..20 Jan, REPEAT<=2, DURATION<=1 day")
+    + [X("duplicates", "c14.py", "h_duplicates", timeout=300, what="2-3 alarms with identical (or nearly identical) content each contribute their own times", bound="floating/UTC start any second, trigger +-1 day")]
     + [X("no-trigger", "c14.py", "h_no_trigger", timeout=200, what="alarm without TRIGGER contributes nothing", bound="REPEAT<=2, DURATION<=1 day")]
     + shards("pair", "c14.py", "h_pair", {"kind": [0, 1], "sk": [2, 3], "rel": [0, 1, 2]}, timeout=300,
              what="one relative + one absolute alarm on one component: exactly the two alarms' own times, attributed to the right alarm",
